@@ -130,6 +130,12 @@ def cases(tier):
             exp = ERR if (a == 0 and b == 0) else a ** b
             add('pow|%d|%d' % (a, b), 'pow(%s, %d)' % (xint(a), b), exp)
             add('sym-pow|%d|%d' % (a, b), '%s ** %d' % (xint(a), b), exp)
+        if a in (0, 1, -1):
+            # the trivial bases with exponents of every magnitude and parity (the result never grows)
+            for b in ((1 << 31), (1 << 32) + 1, (1 << 62) + 1, (1 << 63) - 1, 1 << 63, (1 << 63) + 1, (1 << 64) - 1, 1 << 64, (1 << 64) + 1, (1 << 127) - 1, (1 << 70) + 1, 3 ** 50, 1 << 200):
+                exp = a ** (b % 2 + 2) if a else 0
+                add('pow-trivial-base|%d|%d' % (a, b), 'pow(%s, %s)' % (xint(a), xint(b)), exp)
+                add('pow-trivial-base-eq|%d|%d' % (a, b), '(%s ** %s) == %s' % (xint(a), xint(b), xint(exp)), True)
         add('pow|%d|-1' % a, 'pow(%s, -1)' % xint(a), ERR)
         add('neg|%d' % a, 'neg(%s)' % xint(a), -a)
         add('abs|%d' % a, 'abs(%s)' % xint(a), abs(a))
